@@ -170,6 +170,26 @@ theorem db_attrSkip (ctx : Ctx) (e w : Nat) (hwf : (Tok.attrSkip e w).wf false) 
   rcases he with rfl | rfl | rfl | rfl | rfl <;>
   simp [decodeTokXlsb, isMemFunc, encXlsb, decodeXlsb, actOf, need_succ, need_16, need_unfold, need_zero, byteAt_zero, drop_16]
 
+theorem db_attrChoose (ctx : Ctx) (offs : List Nat) (hwf : (Tok.attrChoose offs).wf false) (rest : Bytes) :
+    decodeTokXlsb ctx (encXlsb (Tok.attrChoose offs) ++ rest) =
+      .ok (actOf (envOfXlsb ctx) false (Tok.attrChoose offs), rest) := by
+  obtain ⟨h1, h2, _⟩ := hwf
+  have hn : offs.length - 1 + 1 = offs.length := by omega
+  have h16 : offs.length - 1 < 65536 := by omega
+  simp only [decodeTokXlsb, encXlsb, List.cons_append, List.append_assoc]
+  have h19 : (0x19 : UInt8).toNat = 0x19 := rfl
+  have h04 : (0x04 : UInt8).toNat = 0x04 := rfl
+  have hm : isMemFunc 0x19 = false := by decide
+  rw [h19]
+  simp only [hm, Bool.false_eq_true, if_false, decodeXlsb, byteAt_zero, h04, List.drop_succ_cons, List.drop_zero]
+  have hl16 : ∀ (m : Nat) (r : Bytes), (le16 m ++ r).length = 2 + r.length := by intro m r; simp [le16]; omega
+  rw [need_ok false _ 1 (by simp), need_ok false _ 2 (by rw [hl16]; omega), u16_le16 _ _ h16, hn,
+    need_ok false _ _ (by rw [hl16, List.length_append, unitsLe_length]; omega)]
+  simp only [Res.bind_ok]
+  rw [Nat.add_comm 2, show 2 * offs.length + 2 = (unitsLe offs).length + 2 from by rw [unitsLe_length], drop_16,
+    List.drop_left' rfl]
+  rfl
+
 theorem db_func (ctx : Ctx) (c iftab : Nat) (hwf : (Tok.func c iftab).wf false) (rest : Bytes) :
     decodeTokXlsb ctx (encXlsb (Tok.func c iftab) ++ rest) =
       .ok (actOf (envOfXlsb ctx) false (Tok.func c iftab), rest) := by
@@ -224,17 +244,18 @@ theorem decode_encode_xlsb (ctx : Ctx) (t : Tok) (hwf : t.wf false) (hs : t.shee
   | paren => exact db_simple ctx _ (by simp) rest
   | attrSum => exact db_simple ctx _ (by simp) rest
   | attrSkip e w => exact db_attrSkip ctx e w hwf rest
+  | attrChoose offs => exact db_attrChoose ctx offs hwf rest
   | func c iftab => exact db_func ctx c iftab hwf rest
   | funcVar c argc iftab => exact db_funcVar ctx c argc iftab hwf rest
 
 theorem encXlsb_cons (t : Tok) : ∃ p body, encXlsb t = p :: body := by
   cases t <;> simp [encXlsb]
 
-theorem runXlsb_step (ctx : Ctx) (fuel : Nat) (p : UInt8) (r : Bytes) (st : St) (a : Act) (r' : Bytes)
+theorem runXlsb_step (ctx : Ctx) (d : Nat) (fuel : Nat) (p : UInt8) (r : Bytes) (st : St) (a : Act) (r' : Bytes)
     (h : decodeTokXlsb ctx (p :: r) = .ok (a, r')) :
-    runXlsb ctx (fuel + 1) (p :: r) st =
+    runXlsb ctx d (fuel + 1) (p :: r) st =
       (match applyAct a st with
-        | .ok st' => runXlsb ctx fuel r' st'
+        | .ok st' => runXlsb ctx d fuel r' st'
         | .err e => .err e
         | .panic e => .panic e
         | .outOfFuel => .outOfFuel) := by
@@ -246,11 +267,11 @@ theorem runXlsb_step (ctx : Ctx) (fuel : Nat) (p : UInt8) (r : Bytes) (st : St) 
     simp only [runXlsb, hm', Bool.false_eq_true, if_false, h]
     cases applyAct a st <;> rfl
 
-theorem runXlsb_encode (ctx : Ctx) : ∀ (toks : List Tok), (∀ t ∈ toks, t.wf false ∧ t.sheetOk ctx.sheets.length) →
+theorem runXlsb_encode (ctx : Ctx) (d : Nat) : ∀ (toks : List Tok), (∀ t ∈ toks, t.wf false ∧ t.sheetOk ctx.sheets.length) →
     ∀ (fuel : Nat) (rest : Bytes) (st : St),
-    runXlsb ctx (toks.length + fuel) (encodeXlsb toks ++ rest) st =
+    runXlsb ctx d (toks.length + fuel) (encodeXlsb toks ++ rest) st =
       (match runActs (toks.map (actOf (envOfXlsb ctx) false)) st with
-        | .ok st' => runXlsb ctx fuel rest st'
+        | .ok st' => runXlsb ctx d fuel rest st'
         | .err e => .err e
         | .panic e => .panic e
         | .outOfFuel => .outOfFuel)
@@ -263,10 +284,10 @@ theorem runXlsb_encode (ctx : Ctx) : ∀ (toks : List Tok), (∀ t ∈ toks, t.w
     have hlen : (t :: ts).length + fuel = (ts.length + fuel) + 1 := by simp; omega
     have henc : encodeXlsb (t :: ts) ++ rest = p :: (body ++ (encodeXlsb ts ++ rest)) := by
       simp [encodeXlsb, hp]
-    rw [hlen, henc, runXlsb_step ctx _ p _ st _ _ hd]
+    rw [hlen, henc, runXlsb_step ctx d _ p _ st _ _ hd]
     simp only [List.map_cons, runActs]
     cases applyAct (actOf (envOfXlsb ctx) false t) st with
-    | ok st' => simp only; exact runXlsb_encode ctx ts (fun t' ht' => hwf t' (by simp [ht'])) fuel rest st'
+    | ok st' => simp only; exact runXlsb_encode ctx d ts (fun t' ht' => hwf t' (by simp [ht'])) fuel rest st'
     | err e => rfl
     | panic e => rfl
     | outOfFuel => rfl
@@ -279,7 +300,7 @@ theorem encodeXlsb_length_ge (toks : List Tok) : toks.length ≤ (encodeXlsb tok
     simp only [encodeXlsb, List.flatMap_cons, List.length_append, hp, List.length_cons] at *
     omega
 
-theorem runXlsb_nil (ctx : Ctx) (fuel : Nat) (st : St) : runXlsb ctx fuel [] st = .ok st := by
+theorem runXlsb_nil (ctx : Ctx) (d : Nat) (fuel : Nat) (st : St) : runXlsb ctx d fuel [] st = .ok st := by
   cases fuel <;> rfl
 
 theorem toRpn_length_pos (e : Expr) : 0 < (toRpn e).length := by
@@ -297,7 +318,7 @@ theorem parseFormulaXlsb_encode (ctx : Ctx) (e : Expr) (harity : e.arityOk)
     | nil => simp only [List.length_nil] at hge; omega
     | cons _ _ => rfl
   simp only [hne, Bool.false_eq_true, if_false]
-  have hrun := runXlsb_encode ctx (toRpn e) hwf (body.length - (toRpn e).length) [] ⟨[], []⟩
+  have hrun := runXlsb_encode ctx 0 (toRpn e) hwf (body.length - (toRpn e).length) [] ⟨[], []⟩
   rw [hb, List.append_nil, show (toRpn e).length + (body.length - (toRpn e).length) = body.length by omega] at hrun
   have hm := machine_correct (envOfXlsb ctx) false e harity [] [] []
   simp only [List.append_nil, runActs, List.nil_append, List.length_nil] at hm
